@@ -19,7 +19,7 @@ RULE = (
     "{sealed 1 byte, sealed 2 bytes, extent 64 bytes, extent 128 bytes} (240 symbols; thorough: services with independent request / response layouts, 300 "
     "symbols); case = (set of symbols with distinct identities, placement): every unordered pair in placement 'all targets', "
     "pairs whose second member is a message additionally in placements 'in a lookup root and referenced' and 'in a lookup root, "
-    "unreferenced'; chains: every combination of three minor versions of one type (port-ID none/p x sealed/extent per version) x every split of the members between the target root and a referenced lookup root; thorough: every triple over a 60-symbol sub-alphabet. Non-trivial iff two members share a name or a port-ID; "
+    "unreferenced'; chains: every combination of three minor versions of one type (port-ID none/p x sealed/extent per version) x every split of the members between the target root and a referenced lookup root; every pair over the extreme port-ID values {none, 0, 1, 8191 / 511} with unregulated ports allowed; thorough: every triple over a 60-symbol sub-alphabet. Non-trivial iff two members share a name or a port-ID; "
     "distinct by canonical hash of (symbols, placement)"
 )
 ASSUMPTIONS = [
@@ -105,6 +105,7 @@ def plan(tier):
     shards += [{"kind": "chains", "part": p, "parts": 8} for p in range(8)]
     shards += [{"kind": "port-triples", "part": p, "parts": 8} for p in range(8)]
     shards += [{"kind": "long-minors"}]
+    shards += [{"kind": "port-values", "part": p, "parts": 4} for p in range(4)]
     if tier != "quick":
         shards += [{"kind": "triples", "part": p, "parts": 128} for p in range(128)]
     return shards
@@ -143,6 +144,18 @@ def cases(shard, tier):
             if i % shard["parts"] == shard["part"]:
                 yield {"symbols": [syms[x] for x in t], "tier": tier, "placements": ["targets"]}
             i += 1
+        return
+    if shard["kind"] == "port-values":
+        # the extreme values of the port-ID ranges (0 is falsy, 8191 / 511 are the last valid ones), unregulated ports allowed
+        i = 0
+        for kind, ports in (("message", [0, 1, 8191]), ("service", [0, 1, 511])):
+            syms = [{"name": n, "ver": v, "kind": kind, "port": p, "layout": ["sealed", "sealed"]} for n in NAMES for v in ([0, 1], [1, 0], [1, 1], [2, 0]) for p in [None] + ports]
+            for a, b in itertools.combinations(range(len(syms)), 2):
+                if (syms[a]["name"], syms[a]["ver"]) == (syms[b]["name"], syms[b]["ver"]):
+                    continue
+                if i % shard["parts"] == shard["part"]:
+                    yield {"symbols": [syms[a], syms[b]], "tier": tier, "placements": ["targets"], "unregulated": True}
+                i += 1
         return
     if shard["kind"] == "long-minors":
         # minor versions whose decimal strings do not sort like the numbers (9 vs 10, 2 vs 10, 25 vs 100, 3 vs 255)
@@ -254,9 +267,9 @@ def check_case(case, R: engine.Acc):
                 files["r/Ref.1.0.dsdl"] = "uint8 x\n@sealed\n"
                 direct, transitive = list(S[:-1]), []
         exp_ok = cross(direct, transitive)
-        one = {"symbols": S, "tier": case.get("tier", "quick"), "placements": [pl]}
+        one = {"symbols": S, "tier": case.get("tier", "quick"), "placements": [pl], "unregulated": bool(case.get("unregulated"))}
         R.case([S, pl], nontrivial=share, sample=(share and not exp_ok and pl == "lookup-referenced" and len(R.samples) < 3))
-        o = api.read_namespace_tree(files, "r", lookups)
+        o = api.read_namespace_tree(files, "r", lookups, allow_unregulated_fixed_port_id=bool(case.get("unregulated")))
         if o.error is not None and not o.error["ide"]:
             R.outcome("foreign-exception")
             R.violation("foreign-exception:%s@%s" % (o.error["cls"], o.error.get("culprit")), "violating sets are rejected with InvalidDefinitionError", one, observed=o.error)
